@@ -1,5 +1,6 @@
 (* Proofs/Sig.v — lemmas for property C15 over Model/Sig.v.  Everything is proved for an
    arbitrary JWT oracle [jwt] and both settings of [key_ok]. *)
+From Coq Require Import ZArith Lia.
 From Receptor Require Import Model.Sig.
 Open Scope N_scope.
 
@@ -195,3 +196,64 @@ Lemma example_sig :
   (* no key configured: even a well-formed token is refused *)
   exec ex_jwt false ex_state Tcp [1] (Cancel 3) = (ex_state, RError E_NOKEY, []).
 Proof. vm_compute. repeat split. Qed.
+
+(* ---------- the signing side ---------- *)
+
+(* a token made with the key the target verifies with, for that target, is valid exactly until
+   its expiration *)
+Lemma signed_token_valid k target expiration elapsed t :
+  create_signature (Some k) target expiration = Some t ->
+  jwt_of k target elapsed t = (if (expiration <=? elapsed)%Z then JExpired else JValid).
+Proof.
+  intro H. inversion H; subst. unfold jwt_of. simpl.
+  rewrite N.eqb_refl, beq_bytes_refl. simpl. destruct (expiration <=? elapsed)%Z; reflexivity.
+Qed.
+
+Lemma other_key_token_invalid k k' target expiration elapsed t :
+  k <> k' -> create_signature (Some k) target expiration = Some t -> jwt_of k' target elapsed t = JBadKey.
+Proof.
+  intros Hne H. inversion H; subst. unfold jwt_of. simpl.
+  destruct (k =? k') eqn:E; [apply N.eqb_eq in E; congruence|reflexivity].
+Qed.
+
+Lemma other_target_token_invalid k target node expiration elapsed t :
+  target <> node -> (elapsed < expiration)%Z ->
+  create_signature (Some k) target expiration = Some t -> jwt_of k node elapsed t = JWrongAud.
+Proof.
+  intros Hne Hlt H. inversion H; subst. unfold jwt_of. simpl. rewrite N.eqb_refl. simpl.
+  destruct (expiration <=? elapsed)%Z eqn:E; [apply Z.leb_le in E; lia|].
+  destruct (beq_bytes target node) eqn:E2; [apply beq_bytes_eq in E2; congruence|reflexivity].
+Qed.
+
+(* End to end: a remote submission to a VERIFYING work type is let through at the target iff the
+   submitter signs (signwork), has the key the target verifies with, and the token has not expired. *)
+Theorem remote_submit_to_verifying_type sk expiration elapsed signwork vk r target name :
+  reg_lookup name r = Some true -> name <> s_remote ->
+  (remote_submit_decision sk expiration elapsed signwork vk r target name = Some Allow <->
+   signwork = true /\ sk = Some vk /\ (elapsed < expiration)%Z).
+Proof.
+  intros Hr Hn. unfold remote_submit_decision, classify.
+  destruct (beq_bytes name s_remote) eqn:E; [apply beq_bytes_eq in E; congruence|]. rewrite Hr.
+  destruct signwork.
+  - destruct sk as [k|]; simpl; [|split; [discriminate|intros (_ & H & _); discriminate]].
+    unfold authorize, verify_signature, jwt_of. simpl.
+    destruct (k =? vk) eqn:Ek; simpl.
+    + apply N.eqb_eq in Ek; subst. rewrite beq_bytes_refl. simpl.
+      destruct (expiration <=? elapsed)%Z eqn:El; simpl.
+      * apply Z.leb_le in El. split; [discriminate|intros (_ & _ & H); lia].
+      * apply Z.leb_gt in El. split; auto.
+    + split; [discriminate|]. intros (_ & H & _). inversion H. subst. rewrite N.eqb_refl in Ek. discriminate.
+  - simpl. unfold authorize, verify_signature. simpl. split; [discriminate|intros [H _]; discriminate].
+Qed.
+
+(* to a work type that does not verify, the signed submission is the one that is refused *)
+Theorem remote_submit_to_plain_type sk expiration elapsed signwork vk r target name :
+  reg_lookup name r = Some false -> name <> s_remote ->
+  (remote_submit_decision sk expiration elapsed signwork vk r target name = Some Allow <-> signwork = false).
+Proof.
+  intros Hr Hn. unfold remote_submit_decision, classify.
+  destruct (beq_bytes name s_remote) eqn:E; [apply beq_bytes_eq in E; congruence|]. rewrite Hr.
+  destruct signwork.
+  - destruct sk as [k|]; simpl; split; discriminate.
+  - simpl. split; reflexivity.
+Qed.
